@@ -163,7 +163,8 @@ def overlay_for(pid):
                     tgt = os.path.join(REPO, pkg.replace("__", "/"), "zz_verif_%s_%s" % (pid.lower(), f))
                 rep[tgt] = os.path.join(pd, f)
     os.makedirs(BUILD, exist_ok=True)
-    path = os.path.join(BUILD, "overlay_%s.json" % pid)
+    tag = "" if REPO == "/repo" else "_" + hashlib.sha256(REPO.encode()).hexdigest()[:8]
+    path = os.path.join(BUILD, "overlay_%s%s.json" % (pid, tag))
     with open(path, "w") as f:
         json.dump({"Replace": rep}, f, indent=1)
     return path, vdir
@@ -171,7 +172,8 @@ def overlay_for(pid):
 
 def build_harness(pid, race=False):
     ov, vdir = overlay_for(pid)
-    out = os.path.join(BUILD, "harness_" + pid + ("_race" if race else ""))
+    tag = "" if REPO == "/repo" else "_" + hashlib.sha256(REPO.encode()).hexdigest()[:8]
+    out = os.path.join(BUILD, "harness_" + pid + tag + ("_race" if race else ""))
     try:
         os.remove(out)
     except FileNotFoundError:
